@@ -177,6 +177,24 @@ func gStrs(l []string) string {
 	return gallina.List(it)
 }
 
+// gz / gn print numbers through primitive integers when they fit (decimal Z/N literals are slow to parse)
+func gz(v int64) string {
+	switch {
+	case v >= 0 && v < 1<<62:
+		return fmt.Sprintf("(iz %d)", v)
+	case v < 0 && v > -(1<<62):
+		return fmt.Sprintf("(izn %d)", -v)
+	}
+	return gallina.Z(v)
+}
+
+func gn(v uint64) string {
+	if v < 1<<62 {
+		return fmt.Sprintf("(inn %d)", v)
+	}
+	return gallina.N(v)
+}
+
 func gRefs(l []uint64) string {
 	if len(l) == 0 {
 		return "(@nil N)"
@@ -196,7 +214,7 @@ type metaObs struct {
 func gMetas(l []metaObs) string {
 	it := make([]string, len(l))
 	for i, m := range l {
-		it[i] = fmt.Sprintf("mkCM %s %s %s", gallina.N(m.Ref), gallina.Z(m.Min), gallina.Z(m.Max))
+		it[i] = fmt.Sprintf("mkCM %s %s %s", gn(m.Ref), gz(m.Min), gz(m.Max))
 	}
 	return gallina.List(it)
 }
@@ -243,7 +261,7 @@ func (r chunkRes) gallina() string {
 	if r.Err != "" {
 		return rerr(r.Err)
 	}
-	return "(ROk " + gallina.Pair(gallina.N(uint64(r.Enc)), pk(r.Data)) + ")"
+	return "(ROk " + gallina.Pair(gn(uint64(r.Enc)), pk(r.Data)) + ")"
 }
 
 func (r chunkRes) equal(o chunkRes) bool {
@@ -391,7 +409,7 @@ func (o *blockObs) gallina() string {
 		for j, c := range s.Chunks {
 			ch[j] = c.gallina()
 		}
-		ser[i] = fmt.Sprintf("mkSO %s %s %s", gallina.N(s.Ref), s.Res.gallina(), gallina.List(ch))
+		ser[i] = fmt.Sprintf("mkSO %s %s %s", gn(s.Ref), s.Res.gallina(), gallina.List(ch))
 	}
 	lv := make([]string, len(o.Names))
 	for i, n := range o.Names {
